@@ -139,7 +139,7 @@ impl Ctx {
     pub fn eval(&mut self, hash: u64, nontrivial: bool) {
         self.evaluations += 1;
         self.tick.fetch_add(1, std::sync::atomic::Ordering::Relaxed);
-        if nontrivial {
+        if nontrivial && self.bitmap.len() > 1 {
             let bit = hash >> (64 - BITMAP_LOG2);
             self.bitmap[(bit >> 6) as usize] |= 1u64 << (bit & 63);
         }
@@ -220,13 +220,21 @@ impl Ctx {
         }
     }
 
+    /// Sanitizer layers (Miri, valgrind, ...) do not contribute to the distinct-case count: the 16 MB
+    /// bitmap would dominate their run time. Call before the monitor runs.
+    pub fn disable_distinct_tracking(&mut self) {
+        self.bitmap = vec![0u64; 1];
+    }
+
     pub fn write_worker_output(&self, out: &str) {
         let bm_path = format!("{}.bitmap", out);
-        let mut bytes = Vec::with_capacity(self.bitmap.len() * 8);
-        for w in &self.bitmap {
-            bytes.extend_from_slice(&w.to_le_bytes());
+        if self.bitmap.len() > 1 {
+            let mut bytes = Vec::with_capacity(self.bitmap.len() * 8);
+            for w in &self.bitmap {
+                bytes.extend_from_slice(&w.to_le_bytes());
+            }
+            std::fs::write(&bm_path, bytes).expect("write bitmap");
         }
-        std::fs::write(&bm_path, bytes).expect("write bitmap");
         let v = json!({
             "shard": self.shard,
             "evaluations": self.evaluations,
